@@ -1,0 +1,32 @@
+// Copyright 2015, Joe Tsai. All rights reserved.
+// Use of this source code is governed by a BSD-style
+// license that can be found in the LICENSE.md file.
+
+//go:build verif
+// +build verif
+
+// This file exists to export internal implementation details to the
+// verification harness. It adds no behaviour and is compiled only with the
+// "verif" build tag.
+
+package flate
+
+// VerifDict drives a dictDecoder one primitive at a time.
+type VerifDict struct{ dd dictDecoder }
+
+func (v *VerifDict) Init(size int)          { v.dd.Init(size) }
+func (v *VerifDict) HistSize() int          { return v.dd.HistSize() }
+func (v *VerifDict) AvailSize() int         { return v.dd.AvailSize() }
+func (v *VerifDict) WriteCopy(d, l int) int { return v.dd.WriteCopy(d, l) }
+func (v *VerifDict) ReadFlush() []byte      { return v.dd.ReadFlush() }
+func (v *VerifDict) BufLen() int            { return len(v.dd.hist) }
+
+// WriteBytes copies as much of b as fits into WriteSlice() and marks it written.
+func (v *VerifDict) WriteBytes(b []byte) int {
+	n := copy(v.dd.WriteSlice(), b)
+	v.dd.WriteMark(n)
+	return n
+}
+
+func (v *VerifDict) PutByte(c byte)            { v.dd.WriteByte(c) }
+func (v *VerifDict) TryWriteCopy(d, l int) int { return v.dd.TryWriteCopy(d, l) }
